@@ -195,6 +195,8 @@ next_layer:
 retry_fetch_lv:
     node_version64_body v_at_fetch_lv{};
     std::size_t lv_pos{0}; // index, not rank
+    // removes are not counted in the node version; the permutation is compared instead
+    const std::uint64_t perm_at_fetch_lv{target_border->get_permutation().get_body()};
     link_or_value* lv_ptr = target_border->get_lv_of(
             key_tup.get_key_slice(), key_tup.get_key_length(), v_at_fetch_lv, lv_pos);
 
@@ -254,7 +256,8 @@ retry_fetch_lv:
                 (final_check.get_deleted() && !final_check.get_root())) {
                 goto retry_from_root; // NOLINT
             }
-            if (final_check.get_vinsert_delete() != v_at_fetch_lv.get_vinsert_delete()) {
+            if (final_check.get_vinsert_delete() != v_at_fetch_lv.get_vinsert_delete() ||
+                target_border->get_permutation().get_body() != perm_at_fetch_lv) {
                 goto retry_fetch_lv; // NOLINT
             }
             out = v_body;
